@@ -257,6 +257,9 @@ class Trimesh(Geometry3D):
         if self.is_empty:
             return self
 
+        # make sure values we are going to keep aren't stale
+        # from an in-place edit before we lock the cache
+        self._cache.verify()
         # avoid clearing the cache during operations
         with self._cache:
             # if we're cleaning remove duplicate
@@ -2455,6 +2458,10 @@ class Trimesh(Geometry3D):
         elif util.allclose(matrix, _IDENTITY4, 1e-8):
             return self
 
+        # dump any values that are stale from an in-place edit
+        # before we selectively preserve items in the cache
+        self._cache.verify()
+
         # new vertex positions
         new_vertices = transformations.transform_points(self.vertices, matrix=matrix)
 
@@ -2718,6 +2725,8 @@ class Trimesh(Geometry3D):
         Alters `self.faces` by reversing columns, and negating
         `self.face_normals` and `self.vertex_normals`.
         """
+        # dump stale values before locking the cache
+        self._cache.verify()
         with self._cache:
             if "face_normals" in self._cache:
                 self.face_normals = self._cache["face_normals"] * -1.0
@@ -3105,6 +3114,8 @@ class Trimesh(Geometry3D):
         copied._cache.verify()
 
         if include_cache:
+            # make sure we aren't copying stale values
+            self._cache.verify()
             # shallow copy cached items into the new cache
             # since the data didn't change here when the
             # data in the new mesh is changed these items
